@@ -116,19 +116,9 @@ def powSumRule (wrt : Var) (v : VVar) (k : Rat) : Expr :=
     else .bin .mul (Expr.c k) (.bin .pow (.var x) (Expr.c (k - 1)))
   | none => Expr.c 0
 
-/-- the per-operator table of gradient_vector_unary_sum -/
-def unSumDeriv (op : VOp) (x : Expr) : Expr :=
-  match op with
-  | .sin => .un .cos x
-  | .cos => .bin .mul (Expr.c (-1)) (.un .sin x)
-  | .exp => .un .exp x
-  | .log => .bin .div (Expr.c 1) x
-  | .sqrt => .bin .div (Expr.c 1) (.bin .mul (Expr.c 2) (.un .sqrt x))
-  | .sinh => .un .cosh x
-  | .cosh => .un .sinh x
-  | .tanh => .bin .sub (Expr.c 1) (.bin .pow (.un .tanh x) (Expr.c 2))
-  | .tan => .bin .div (Expr.c 1) (.bin .pow (.un .cos x) (Expr.c 2))
-  | .abs => .bin .div x (.un .abs x)
+/- the per-operator table of gradient_vector_unary_sum is `Optyx.Generated.unSumDeriv`,
+   regenerated from the source (the same table of `VectorUnarySum.jacobian_row` is
+   `Optyx.Generated.unSumJacRow`). -/
 
 /-- gradient_vector_unary_sum -/
 def unSumRule (wrt : Var) (v : VVar) (op : VOp) : Expr :=
